@@ -226,7 +226,17 @@ func runC08(c *Ctx) {
 					}
 					sent = append(sent, seq)
 				}
-				// wait for the last event to be processed: push a seqno-advanced and wait a little
+				// wait for the events to come through the wire: long while something that is due is missing (it ends the wait
+				// when it comes), then a little longer for anything that should not come
+				due := 0
+				for _, s := range sent {
+					if a1 < 3 || s > F {
+						due++
+					}
+				}
+				for t0 := time.Now(); len(delivered()) < due && time.Since(t0) < 3*time.Second; {
+					time.Sleep(2 * time.Millisecond)
+				}
 				time.Sleep(30 * time.Millisecond)
 				got := delivered()
 				uuid0 := uint64(log[0].VbUUID)
